@@ -698,3 +698,59 @@ def run(ck, prog):
 
 EXPLANATION += (" Map visitors (derived and hand-written): the is_some()/is_none() test that guards `X = Some(next_value)` is a test of "
                 "X itself.")
+
+
+# ------------------------------------------------------------------ unsupervised models: eq looks at every learned field the model's map reads
+_run_pre_eqcover = run
+
+UNSUPERVISED = {
+    "PCA": ("decomposition::pca::PCA::<T, M>::", ("transform",), "<decomposition::pca::PCA<T, M> as std::cmp::PartialEq>::eq"),
+    "SVD": ("decomposition::svd::SVD::<T, M>::", ("transform",), "<decomposition::svd::SVD<T, M> as std::cmp::PartialEq>::eq"),
+    "KMeans": ("cluster::kmeans::KMeans::<T>::", ("predict",), "<cluster::kmeans::KMeans<T> as std::cmp::PartialEq>::eq"),
+    "DBSCAN": ("cluster::dbscan::DBSCAN::<T, D>::", ("predict",), "<cluster::dbscan::DBSCAN<T, D> as std::cmp::PartialEq>::eq"),
+}
+
+
+def eq_covers_learned_state(ck, prog):
+    """'[a model] does not equal a model fitted on different rows': for the estimators fitted on rows alone (no targets
+    whose difference eq could fall back on) every field of self that transform / predict reads is a field eq reads.  A field
+    the model's map depends on but equality ignores lets two models that map the same query differently compare equal
+    (PCA: the centre mu / pmu and the truncated projection; DBSCAN: the stored points)."""
+    from sa import config
+    rule = "E5-eq-covers"
+    for nm, (pre, uses, eqp) in UNSUPERVISED.items():
+        eqb = prog.bodies.get(eqp)
+        if eqb is None:
+            ck.violation(rule, f"{nm}::eq exists", eqp, "", expected="anchor exists", found="anchor vanished")
+            continue
+
+        def reads(b):
+            # direct field reads of self in the body itself (fields read only inside closures are not seen: fewer
+            # obligations, never an alarm)
+            fr, whole = config.field_reads(b, 1)
+            return set(fr), whole
+        fe, we = reads(eqb)
+        for u in uses:
+            ub = prog.bodies.get(pre + u)
+            if ub is None:
+                ck.violation(rule, f"{nm}::{u} exists", pre + u, "", expected="anchor exists", found="anchor vanished")
+                continue
+            fu, _ = reads(ub)
+            for f in sorted(fu):
+                inst = f"{nm}::eq reads `{f}`, which {u} depends on"
+                if f in fe or we:
+                    ck.ok(rule, inst, eqb.path, f"{eqb.loc[0]}:{eqb.loc[1]}", f"read by both {u} and eq")
+                else:
+                    ck.violation(rule, inst, eqb.path, f"{eqb.loc[0]}:{eqb.loc[1]}", ordinal=f,
+                                 expected=f"eq compares every field {u} reads",
+                                 found=f"{u} reads self.{f}; eq reads only {sorted(fe)}: two models that differ in `{f}` (and map the same input differently) compare equal")
+
+
+def run(ck, prog):
+    _run_pre_eqcover(ck, prog)
+    eq_covers_learned_state(ck, prog)
+
+
+EXPLANATION += (" For the models fitted on rows alone (PCA, truncated SVD, k-means, DBSCAN) every field of self that transform / predict "
+                "reads is read by eq (found and fixed: PCA::eq ignored projection, mu and pmu; recorded: DBSCAN::eq ignores the stored points).")
+TECHNIQUE += "; field-read coverage of PartialEq against the prediction routine"
